@@ -482,7 +482,37 @@ func TestGovcReplayPolicyOrder(t *testing.T) {
 			return
 		}
 	}
-	fmt.Println("NOT-REPRODUCED: the first matching policy decides in every order tried")
+	// check failure takes precedence over the policy result: a later block's check fails
+	// while a deny (or no) policy matches
+	for _, c := range []struct {
+		name     string
+		policies []Policy
+	}{
+		{"deny then allow", []Policy{deny(matchAll), allow(matchAll)}},
+		{"nothing matches", []Policy{allow(matchNone)}},
+		{"allow", []Policy{allow(matchAll)}},
+	} {
+		bb := tok.CreateBlock()
+		bb.AddCheck(Check{Queries: []Rule{{Head: Predicate{Name: "q"}, Body: []Predicate{{Name: "never", IDs: []Term{Integer(7)}}}}}})
+		tok2, err := tok.Append(rand.Reader, bb.Build())
+		if err != nil {
+			t.Fatalf("append: %v", err)
+		}
+		a, err := tok2.Authorizer(pub)
+		if err != nil {
+			t.Fatalf("authorizer: %v", err)
+		}
+		for _, p := range c.policies {
+			a.AddPolicy(p)
+		}
+		got := a.Authorize()
+		if got == nil || got == ErrPolicyDenied || got == ErrNoMatchingPolicy || !strings.HasPrefix(got.Error(), "biscuit: verification failed") {
+			fmt.Printf("REPRODUCED: block #1 has a failing check and the policies are [%s]: Authorize returns %v, a failed check takes precedence over the policy result\n", c.name, got)
+			t.Fail()
+			return
+		}
+	}
+	fmt.Println("NOT-REPRODUCED: the first matching policy decides in every order tried, and a failed check precedes it")
 }
 
 // TestGovcReplayLimitIdentity: C11 — a run limit hit while evaluating any block must
